@@ -195,7 +195,8 @@ def spell_rule(rng, rr, doc_spec="__none__"):
 
 DOC_SHAPES = [None, "", "  one line \n", ["first\n", " second "], {"description": " d \n"},
               {"description": ["a ", "b\n"], "examples": [" ex1 \n", "ex2"]}, {"examples": ["only ex \n"]}, {},
-              {"description": "has `code` & <b>"},
+              {"description": "has `code` & <b>"}, {"description": "a line", "examples": ["ex 1", " ex 2 "]},
+              {"description": " ", "examples": ["only\n"]},
               # every kind of white space at the ends (all of it is stripped), and inside (none of it is)
               "\ttabbed\t", {"description": ["\r\nwindows line\r\n", "\x0bvt\x0c"], "examples": ["ex\t", "\u00a0nbsp\u2003"]},
               ["in\tside  kept", " \t "], {"description": "\x1f unit sep \x1c", "examples": []}, "\u00c9t\u00e9 "]
@@ -219,7 +220,7 @@ def blank(i, op):
     return {"id": i, "op": op, "spec": V("none"), "delim": 47, "outcome": "", "exc_allowed": True,
             "proj": {"t": "null"}, "ppart": NULLPART, "ppath": NULLPATH, "prule": NULLRULE, "pdoc": V("none"),
             "prules": [], "pdocs": [], "spec_after": V("none"), "outcome2": "", "eq12": True,
-            "spec_after2": V("none"), "has_dsl": False, "eq_dsl": True, "eq_dsl_rev": True, "exc": ""}
+            "spec_after2": V("none"), "has_dsl": False, "eq_dsl": True, "eq_dsl_rev": True, "exc": "", "independent": True}
 
 
 def do_parse(op, spec, delim="/"):
@@ -267,6 +268,9 @@ def parse_event(i, op, spec, dsl=None, delim="/", parser=None, spec_for_tlc=None
     import valida.datapath as dp
     import valida
 
+    if parser is None and isinstance(spec, (dict, list)):
+        import copy as _copy
+        spec = _copy.deepcopy(spec)      # the spec handed to the library shares no container with the generator's recipes
     e = blank(i, op)
     e["spec"] = enc_val(spec if spec_for_tlc is None else spec_for_tlc)
     e["delim"] = ord(delim)
@@ -307,7 +311,47 @@ def parse_event(i, op, spec, dsl=None, delim="/", parser=None, spec_for_tlc=None
             e["spec_after2"] = enc_val(spec) if spec_for_tlc is None else e["spec"]
         except Unencodable:
             e["spec_after2"] = V("unencodable")
+        if spec_for_tlc is None and isinstance(spec, (dict, list)):
+            # last of all: the caller goes on editing the containers of its spec; the parsed object must not notice
+            before = obj_snap(first)
+            poke_spec(spec)
+            e["independent"] = obj_snap(first) == before
     return e
+
+
+def obj_snap(x, depth=0, seen=None):
+    """everything a library object holds, by value (no identities): instance attributes of library objects, contents of
+    plain containers, scalars, names of types / functions"""
+    seen = set() if seen is None else seen
+    if depth > 60:
+        return ("deep",)
+    if type(x).__module__.split(".")[0] == "valida" and hasattr(x, "__dict__") and not isinstance(x, type):
+        if id(x) in seen:
+            return ("ref",)
+        seen.add(id(x))
+        return ("vobj", type(x).__name__, tuple((k, obj_snap(v, depth + 1, seen)) for k, v in sorted(vars(x).items())))
+    if isinstance(x, dict):
+        return ("dict", tuple((obj_snap(k, depth + 1, seen), obj_snap(v, depth + 1, seen)) for k, v in x.items()))
+    if isinstance(x, (list, tuple)):
+        return (type(x).__name__, tuple(obj_snap(i, depth + 1, seen) for i in x))
+    if isinstance(x, (bool, int, float, str, type(None))):
+        return (type(x).__name__, x)
+    return ("other", getattr(x, "__name__", type(x).__name__))
+
+
+def poke_spec(x, depth=0):
+    """in-place edits of every container of a spec (identity kept): an item appended to every list, a key added to
+    every mapping"""
+    if depth > 12:
+        return
+    if isinstance(x, dict):
+        for v in list(x.values()):
+            poke_spec(v, depth + 1)
+        x["__poked__"] = 1
+    elif isinstance(x, list):
+        for v in list(x):
+            poke_spec(v, depth + 1)
+        x.append("__poked__")
 
 
 def judge(rep, events, recipes, prop, keyf=None):
@@ -375,6 +419,9 @@ def spec_tree_recipe(rng, depth=2, kinds=None, null_p=0.1):
             return ("null",)
         return ("leaf", spec_leaf_recipe(rng, kinds))
     op = rng.choice(["and", "or", "xor"])
+    if rng.random() < 0.06:
+        sub = spec_tree_recipe(rng, depth - 1, kinds, null_p)
+        return (rng.choice(["and", "or", "xor", "xor"]), sub, sub)     # ONE object as both operands (c ^ c)
     return (op, spec_tree_recipe(rng, depth - 1, kinds, null_p), spec_tree_recipe(rng, depth - 1, kinds, null_p))
 
 
